@@ -150,7 +150,8 @@ SeqOK(q) ==
    "canon" = Struct(&v) / Struct(&v, rm) / Var(x, rules...) / Map(m, rm) / Url(u, rm) *)
 Apis(ca) ==
   CASE ca = "tag" -> {"canon", "value", "validate", "customtag", "sliceroot", "maproot", "object"}
-    [] ca = "rm"  -> {"canon", "value", "forfn", "forrule", "typed", "nested", "sliceroot"}
+    [] ca = "rm"  -> {"canon", "value", "forfn", "forrule", "typed", "nested", "sliceroot",
+                      "overtag"}   \* the field also carries a tag rule (one that never fires): the rule map replaces it entirely
     [] ca = "var" -> {"canon", "joined", "object"}
     [] ca \in {"map", "mapiface"} -> {"canon", "sliceroot", "mapfn", "object"}
     [] ca = "url" -> {"canon", "ptr", "object"}
